@@ -12,7 +12,8 @@ Built on the C14 models (imported read-only): L1 `syncPass`/`asyncEffect`/`stale
 * `killRun` (the goroutine of `remoteRunner.Kill`) and `onUnkillable` — runner.go / worker.go;
 * `fslRun` (the loop of `fixStaleLocks`) — scheduler/fix_stale_locks.go;
 * `asyncEffectW` (a refused latch schedules a wake-up) — scheduler/run_queue.go `uuidLock`;
-* `CPool` (`Pool.Create`, its background goroutine, `Unallocated`, `AtQuota`), `runSync` — pool.go.
+* `CPool` (`Pool.Create`, its background goroutine, `Unallocated`, `AtQuota`), `runSync` — pool.go;
+* `saveTags`, `workerClose` — worker.go.
 
 The liveness transition system is Model/C15_Live.lean.
 -/
@@ -187,6 +188,35 @@ def runSyncIter (r : ListRes) : List SyncEv := [.list r, .rearm]
 
 /-- the loop over the answers of the successive listings -/
 def runSync (rs : List ListRes) : List SyncEv := rs.flatMap runSyncIter
+
+/-! ### worker.go: `saveTags` and `Close` -/
+
+/-- cloud instance tags (a Go map: keys unique) -/
+abbrev Tags := List (String × String)
+
+def Tags.get (t : Tags) (k : String) : Option String := (t.find? (fun p => p.1 == k)).map (·.2)
+
+/-- `tags[k] = v` -/
+def Tags.set : Tags → String → String → Tags
+  | [], k, v => [(k, v)]
+  | p :: rest, k, v => if p.1 == k then (k, v) :: rest else p :: Tags.set rest k v
+
+/-- `saveTags()`: nothing when the instance's tags already carry the worker's instance type and
+idle behaviour; otherwise `instance.SetTags(tags)` with the instance's **whole** tag set, the two
+entries updated (`SetTags` replaces the set: everything else — InstanceSetID, InstanceSecret,
+resource tags — must be written back). `none` = no call. -/
+def saveTags (tags : Tags) (kType kIdle itName ib : String) : Option Tags :=
+  if tags.get kType == some itName && tags.get kIdle == some ib then none
+  else some ((tags.set kType itName).set kIdle ib)
+
+/-- what `worker.Close()` does, in order (deferred calls run last-in first-out: the executor is
+closed after the pool mutex has been released, because closing it can wait for an SSH handshake
+whose last step, `reportSSHConnected`, needs that mutex) -/
+inductive CloseEv where
+  | lock | abandonRunners | unlock | executorClose
+deriving DecidableEq, Repr, Inhabited
+
+def workerClose : List CloseEv := [.lock, .abandonRunners, .unlock, .executorClose]
 
 /-! ### runner.go: the goroutine started by `Kill` -/
 
